@@ -118,7 +118,7 @@ const ALIAS_NAMES: [&str; 2] = ["StateAlias", "OrderAlias"];
 const INPUT_NAMES: [&str; 4] = ["source", "locked", "gas", "pool"];
 const LOCAL_NAMES: [&str; 4] = ["loc_a", "loc_b", "loc_c", "loc_d"];
 const OUTPUT_NAMES: [&str; 4] = ["out_a", "out_b", "out_c", "out_d"];
-const REF_NAMES: [&str; 2] = ["ref_a", "ref_b"];
+const REF_NAMES: [&str; 4] = ["ref_a", "ref_b", "Ref_c", "ref_d"];
 const TX_NAMES: [&str; 3] = ["swap", "settle", "claim"];
 const FIELD_NAMES: [&str; 7] = ["f_count", "f_owner", "f_data", "f_items", "f_table", "f_inner", "f_ok"];
 const CASE_NAMES: [&str; 6] = ["Open", "Close", "Cancel", "Update", "Init", "Halt"];
@@ -1399,9 +1399,17 @@ impl<'t, 'c> Gen<'t, 'c> {
 
         // references, collateral
         if self.feat.refs {
-            let n = self.t.weighted(&[5, 3, 1]);
+            let n = self.t.weighted(&[10, 6, 2, 1, 1]);
             for i in 0..n {
                 self.mark("reference_input");
+                // a later block may name the UTxO an earlier block names (reference inputs form a set)
+                let earlier: Vec<GExpr> = self.cur.refs.iter().filter(|r| matches!(r.1, GExpr::RefLit(..))).map(|r| r.1.clone()).collect();
+                if !earlier.is_empty() && self.t.chance(1, 3) {
+                    self.mark("reference_named_twice");
+                    let e = earlier[self.t.pick(earlier.len())].clone();
+                    self.cur.refs.push((REF_NAMES[i].to_string(), e));
+                    continue;
+                }
                 // one time in six the reference names a UTxO that an input block of this transaction spends
                 let spent: Vec<(Vec<u8>, u32)> = utxos.iter().flatten().map(|u| (u.txid.clone(), u.index)).collect();
                 let e = if !spent.is_empty() && self.t.chance(1, 6) {
